@@ -210,6 +210,7 @@ def exact_batch(ctx, depth, roots, sequences, seq_len, max_extra, label, threads
             # the spec found the root inconsistent (pre-filter of the harness is only a heuristic)
             continue
         ctx.evaluations += 1
+        ctx.traces += 1     # one real search compared with the fold of its TLC-generated graph
         node = g.nodes[k]
         if node["n"] == 0:
             continue
